@@ -44,7 +44,8 @@ META = {
         "(note_explicit_target attaches docutils' duplicate-name system message, the body its paragraphs), because the "
         "collector and docutils read children[0] as the label; helpers that receive the node are followed. "
         "(R3) The duplicate-definition path issues exactly one [ref.footnote] warning and returns before any construction, "
-        "registration or rendering. "
+        "registration or rendering of the duplicate itself, but still walks the token's children and dispatches definitions "
+        "of other labels nested in its body. "
         "(R4) The collector's move loop (in apply or one helper) is guarded by myst_footnote_sort only, gathers every entry "
         "of document.footnotes and autofootnotes exactly once, detaches then attaches each footnote once per iteration, in "
         "ascending sorted(key=) order; at most one transition is built, under both settings, appended to the document before "
@@ -67,12 +68,18 @@ META = {
         "document at hand, never from an attribute the parser object stores itself (a memo that outlives the document). "
         "(R8) Sort keys are total: one comparable kind on all returns, or every label the renderer can create converts with int(). "
         "(R9) The footnote transition is attached only under a guard that looks at the document's children (not first) and "
-        "- when that guard is an all()/any() over the children or a test of one fixed child it must say exactly 'some child is not a "
-        "footnote' - and under a test for an existing final transition (not adjacent) whose look-out goes down the tree (advancing loop, "
+        "- when that guard is an all()/any() over the children or a test of one fixed child it must say exactly 'some child is "
+        "neither a footnote nor one of the leading nodes docutils' Transitions transform skips' (title, subtitle - read from "
+        "docutils/transforms/misc.py; a docutils superclass such as Titular counts) - and under a test for an existing final transition (not adjacent) whose look-out goes down the tree (advancing loop, "
         "recursion or docutils traversal), because docutils later hoists a transition that ends the last section. "
         "(R10) SortFootnotes ranks a footnote by the position of its FIRST reference (list.index, or a first-wins table "
         "- setdefault / `not in` guarded store / reversed fill - over autofootnote_refs or over the local list of their "
         "labels; never a last-wins table). "
+        "(R12) Because labels are registered with note_explicit_target, a transform that runs before docutils' Footnotes puts a "
+        "name that a clash moved to dupnames back into names - for both registries, independent of the options, registered "
+        "in both front ends. "
+        "(R13) The label semantics of the user documentation (docs/syntax/typography.md: 'case-insensitive') are compared with "
+        "the verbatim use of the label in the two render methods (known finding). "
         "(R11) UnreferencedFootnotesDetector examines both registries and reports every definition without back-references "
         "exactly once: one report per iteration on the unreferenced path, none on the referenced path, no early exit, and a "
         "deferred collection keeps one entry per footnote and is reported once per entry."
@@ -83,7 +90,8 @@ META = {
         "types the final-transition look-out descends into (only that it descends); a manual/auto classification moved "
         "wholesale into a helper is ANALYSIS-ERROR (path counts would span two CFGs); rST footnotes created inside eval-rst "
         "(parsed into a separate document); inline rules of third-party markdown-it plugins other than footnote/attrs; "
-        "string transformations in the duplicate test other than the tabled folding methods/functions are ANALYSIS-ERROR"
+        "string transformations in the duplicate test other than the tabled folding methods/functions are ANALYSIS-ERROR; "
+        "how deep the walk over a dropped duplicate's children goes (only that it loops/recurses)"
     ),
     "trusted_base": [
         "CPython ast",
@@ -790,8 +798,15 @@ def r7_settings_plumbing(corpus: Corpus, rep: Report, tier: str):
                 problems.append(f"{rfi.qualname} reads {name} from the document's `{h_}` object but the renderer stores it on `{'/'.join(sorted(w_holders))}`: the stored per-document value is never seen")
         for wfi, w in ws:
             v = w.value
+            v = _deref(wfi, v) if isinstance(v, ast.Name) else v
+            while isinstance(v, ast.Call) and dotted(v.func) == "bool" and len(v.args) == 1:
+                v = v.args[0]
             src_ok = isinstance(v, ast.Attribute) and isinstance(v.value, ast.Attribute) and v.value.attr == "md_config"
             if not src_ok:
+                fields_in = [x for x in ast.walk(v) if isinstance(x, ast.Attribute) and isinstance(x.value, ast.Attribute) and x.value.attr == "md_config"]
+                if fields_in and isinstance(v, (ast.BoolOp, ast.IfExp)):
+                    problems.append(f"{name} is stored as `{short(v, 70)}`: another source can override md_config.{fields_in[0].attr}, so the document's own configuration (e.g. a False from front matter or conf.py) does not always reach the transforms")
+                    continue
                 raise Unsupported(f"{wfi.module.site(w)}: settings.{name} written from `{short(v, 50)}` (not a config field)")
             if "myst_" + v.attr != name:
                 problems.append(f"settings.{name} is written from md_config.{v.attr}")
@@ -1267,6 +1282,35 @@ def r3_duplicate_path(corpus: Corpus, rep: Report, tier: str):
                 rep.violation("C11.R3", key, fi.module.site(w), f"the duplicate-definition warning is typed {got[0]}.{got[1]} (or non-literal), required ref.footnote like the unreferenced-footnote warnings")
         else:
             rep.violation("C11.R3", key, fi.module.site(w), "the duplicate-definition warning bypasses create_warning: no [ref.footnote] tag, not suppressible")
+    # the duplicate's own content is dropped, but definitions of OTHER labels nested in its body are not lost
+    me = fi.name
+    nested = []
+    for n in fi.local_nodes():
+        if isinstance(n, ast.Call) and isinstance(n.func, ast.Attribute) and _is_name(n.func.value, "self") and n.func.attr in (me, "_render_tokens", "render_children") and ev.cfg.stmt_of(n) in reach:
+            loop = next((a for a in ancestors(n) if isinstance(a, (ast.While, ast.For))), None)
+            if n.func.attr == me and loop is None:
+                continue
+            nested.append(n)
+    key = f"{fi.fq}|duplicate path|definitions nested in the duplicate's body are still rendered"
+    via_helper = None
+    for call_, h_ in _helper_calls(fi):
+        if ev.cfg.stmt_of(call_) in reach and h_.fq != fi.fq:
+            inner = [c for c in h_.local_nodes() if isinstance(c, ast.Call) and isinstance(c.func, ast.Attribute) and _is_name(c.func.value, "self") and c.func.attr == me]
+            if inner and any(isinstance(x, ast.Attribute) and x.attr == "children" for x in h_.local_nodes()) and (any(isinstance(a, (ast.While, ast.For)) for c in inner for a in ancestors(c)) or _descends(h_)):
+                via_helper = (call_, h_)
+    if via_helper is not None:
+        rep.ok("C11.R3", key, fi.module.site(via_helper[0]), f"{via_helper[1].qualname} walks the children and dispatches nested {me} tokens")
+    elif any(n.func.attr == "render_children" for n in nested):
+        pass  # judged above: rendering the whole body is an effect of the duplicate itself
+    elif any(n.func.attr == me for n in nested) and any(isinstance(x, ast.Attribute) and x.attr == "children" for x in ast.walk(n_if)):
+        rep.ok("C11.R3", key, fi.module.site(nested[0]), f"walks token.children and dispatches nested {me} tokens")
+    else:
+        rep.violation(
+            "C11.R3",
+            key,
+            site,
+            "the duplicate branch returns without looking at the token's children: a definition of ANOTHER label written in the indented body of the duplicate (`[^a]: duplicate` + indented `[^b]: only definition of b`) is dropped with it - its text is lost and `[^b]` becomes 'Unknown target name'",
+        )
     rep.expect_min("C11.R3", 3, "warning count, no-effect, warning type")
 
 
@@ -2130,14 +2174,70 @@ def r8_total_order_key(corpus: Corpus, rep: Report, tier: str):
 # R9 - the footnote transition is placed where docutils allows one
 
 
+def _class_set(f: FunctionInfo, spec: ast.expr) -> set[str] | None:
+    """resolved class names of an isinstance class spec: ``C``, ``(C, D)``, ``C | D``"""
+    if isinstance(spec, ast.Tuple):
+        parts = [_class_set(f, e) for e in spec.elts]
+    elif isinstance(spec, ast.BinOp) and isinstance(spec.op, ast.BitOr):
+        parts = [_class_set(f, spec.left), _class_set(f, spec.right)]
+    else:
+        d = dotted(spec)
+        return {f.module.resolve(d)} if d else None
+    if any(p is None for p in parts):
+        return None
+    return set().union(*parts)
+
+
+_LAST_CLASS_SET: dict = {}
+
+
 def _is_footnote_test(f: FunctionInfo, e: ast.AST):
-    """(subject, negated) for ``isinstance(subject, nodes.footnote)`` / ``not isinstance(...)``"""
+    """(subject, negated) for ``isinstance(subject, <classes incl. nodes.footnote>)`` / ``not isinstance(...)``;
+    the class set of the last match is kept in ``_LAST_CLASS_SET['classes']``"""
     neg = False
     while isinstance(e, ast.UnaryOp) and isinstance(e.op, ast.Not):
         e, neg = e.operand, not neg
-    if isinstance(e, ast.Call) and dotted(e.func) == "isinstance" and len(e.args) == 2 and f.module.resolve(dotted(e.args[1]) or "") == "docutils.nodes.footnote":
-        return e.args[0], neg
+    if isinstance(e, ast.Call) and dotted(e.func) == "isinstance" and len(e.args) == 2:
+        cs = _class_set(f, e.args[1])
+        if cs is not None and "docutils.nodes.footnote" in cs:
+            _LAST_CLASS_SET["classes"] = cs
+            return e.args[0], neg
     return None
+
+
+def _docutils_ancestors(cls_dotted: str) -> set[str]:
+    """the class and its base classes inside docutils.nodes (read from docutils/nodes.py)"""
+    corpus = _CUR["corpus"]
+    m = corpus.sibling("docutils/nodes.py")
+    out, work = set(), [cls_dotted.rsplit(".", 1)[-1]]
+    while work:
+        name = work.pop()
+        if f"docutils.nodes.{name}" in out:
+            continue
+        out.add(f"docutils.nodes.{name}")
+        ci = m.classes.get(name)
+        if ci is not None:
+            work += [dotted(b_).rsplit(".", 1)[-1] for b_ in ci.node.bases if dotted(b_)]
+    return out
+
+
+def _transition_header_classes() -> set[str]:
+    """The node classes docutils' Transitions transform skips when it decides that a transition 'begins' the
+    document (read from docutils/transforms/misc.py): a transition directly behind them is an error."""
+    corpus = _CUR["corpus"]
+    m = corpus.sibling("docutils/transforms/misc.py")
+    fn = m.functions.get("Transitions.visit_transition")
+    if fn is None:
+        raise AnchorMissing("docutils Transitions.visit_transition not found")
+    out = set()
+    for n in fn.local_nodes():
+        if isinstance(n, ast.Call) and dotted(n.func) == "isinstance" and len(n.args) == 2 and isinstance(n.args[0], ast.Subscript) and isinstance(n.args[0].slice, ast.Constant) and isinstance(n.args[0].slice.value, int) and n.args[0].slice.value >= 0:
+            cs = _class_set(fn, n.args[1])
+            if cs:
+                out |= {c if c.startswith("docutils.") else "docutils." + c for c in cs}
+    if not out:
+        raise Unsupported("docutils Transitions.visit_transition: leading-node classes not understood")
+    return out
 
 
 def _some_child_is_not_a_footnote(f: FunctionInfo, t: ast.expr, holds: bool) -> str | None:
@@ -2159,6 +2259,10 @@ def _some_child_is_not_a_footnote(f: FunctionInfo, t: ast.expr, holds: bool) -> 
         # 'some child is not a footnote' == any(not F) == not all(F)
         right = (q == "any" and inner_neg and holds) or (q == "all" and not inner_neg and not holds)
         if right:
+            tested = _LAST_CLASS_SET.get("classes", set())
+            missing = sorted(c.rsplit(".", 1)[-1] for c in _transition_header_classes() if not (_docutils_ancestors(c) & tested))
+            if missing:
+                return f"the children that may precede the footnote block without separating it from the start of the document are taken to be footnotes only, not {'/'.join(missing)} (`{short(t, 70)}`): docutils' DocTitle transform promotes a lone heading to the document title/subtitle before the footnotes are collected, and docutils' Transitions transform reports a transition directly behind them ('Document or section may not begin with a transition'), e.g. `# Title[^a]` + `[^a]: text`"
             return None
         words = {("all", False, True): "all children are footnotes", ("any", False, True): "some child is a footnote", ("any", False, False): "no child is a footnote", ("all", True, True): "no child is a footnote", ("all", True, False): "some child is a footnote", ("any", True, False): "all children are footnotes"}
         return f"the transition is only added when {words.get((q, inner_neg, holds), 'a different condition holds')} (`{short(t, 60)}`)"
@@ -2707,6 +2811,119 @@ def r11_unreferenced_reported_once(corpus: Corpus, rep: Report, tier: str):
     rep.expect_min("C11.R11", 4, "2 registries examined + at least 2 per-loop obligations (8 on the current tree)")
 
 
+# ---------------------------------------------------------------------------
+# R12 - a footnote name that docutils moved to dupnames is restored before docutils' Footnotes runs
+
+
+def enclosing_function_of(node: ast.AST) -> FunctionInfo | None:
+    for a in ancestors(node):
+        if hasattr(a, "_fi"):
+            return a._fi
+    return None
+
+
+@rule("C11.R12")
+def r12_clashing_names_restored(corpus: Corpus, rep: Report, tier: str):
+    _use(corpus)
+    rep.rule("C11.R12", "footnote names share docutils' explicit-target name space (note_explicit_target): a name moved to dupnames by a clash is put back, for both registries and whatever the options say, by a transform that runs before docutils' Footnotes")
+    dfn = corpus.func(DEF_FN)
+    ev, _ = _scan_def(dfn)
+    if not ev.nodes("note_target"):
+        rep.listed("C11.R12", "footnote names are not registered as explicit targets", dfn.site(), "no clash with other target names possible")
+        return
+    base_prio = _docutils_footnotes_priority(corpus, rep)
+    tm = corpus.mod(TRANS)
+    found = []
+    for ci in tm.classes.values():
+        ap = ci.methods.get("apply")
+        if ap is None:
+            continue
+        scope_ = [(n, None) for n in ap.local_nodes()]
+        for call_, h_ in _helper_calls(ap):
+            scope_ += [(n, call_) for n in h_.local_nodes()]
+        for n, via in scope_:
+            if not isinstance(n, ast.Assign):
+                continue
+            tg = [t for tt in n.targets for t in (tt.elts if isinstance(tt, (ast.Tuple, ast.List)) else [tt])]
+            for t in tg:
+                if isinstance(t, ast.Subscript) and isinstance(t.value, ast.Name) and isinstance(t.slice, ast.Constant) and t.slice.value == "names":
+                    if any(_sub_of(x, t.value.id, "dupnames") for x in ast.walk(n.value)):
+                        found.append((ci, ap, n, t.value.id, via))
+    key = f"myst_parser.{TRANS}|names moved to dupnames are restored before docutils' Footnotes"
+    if not found:
+        rep.violation(
+            "C11.R12",
+            key,
+            tm.site(tm.tree),
+            "the definition renderer registers every footnote label with note_explicit_target, so a label equal to another explicit target name (`(a)=`, `{#a}`, `:name: a`, an equation label) ends up in dupnames - and docutils' Footnotes transform only looks at names: the reference `[^a]` becomes <problematic> ('Too many autonumbered footnote references', 'Duplicate target name') and the footnote is numbered last; no transform puts the name back",
+        )
+        rep.expect_min("C11.R12", 1, "the restore loop")
+        return
+    for ci, ap, st, var, via in found:
+        rep.saw_function(ap.fq)
+        site = ap.module.site(st)
+        problems = []
+        try:
+            k, _st = _priority_offset(corpus, ci.name, base_prio)
+            if k >= 0:
+                problems.append(f"{ci.name} runs at Footnotes{k:+d}, i.e. not before docutils' Footnotes transform resolves and numbers the footnotes")
+        except Unsupported as e:
+            raise Unsupported(f"{ci.name}: {e}")
+        for front, fq in (("docutils", "parsers.docutils_:Parser.get_transforms"), ("Sphinx", "parsers.sphinx_:MystParser.get_transforms")):
+            gt = corpus.func(fq)
+            if len(_class_mentions(gt, f"myst_parser.{TRANS}.{ci.name}")) != 1:
+                problems.append(f"{ci.name} is not registered (once) in the {front} front end")
+        anchor_ = get_cfg(ap).stmt_of(via if via is not None else st)
+        p_opt, _d = _judge_guards(ap, anchor_, {})
+        if via is not None:
+            hfi = enclosing_function_of(st)
+            if hfi is not None:
+                p_opt += _judge_guards(hfi, get_cfg(hfi).stmt_of(st), {})[0]
+        problems += [f"the restore {p_}" for p_ in p_opt]
+        loop = next((a for a in ancestors(st) if isinstance(a, ast.For) and isinstance(a.target, ast.Name) and a.target.id == var), None)
+        regs = {x.attr for x in ast.walk(loop.iter) if isinstance(x, ast.Attribute) and _doc_attr(x, x.attr)} if loop is not None else set()
+        for reg in ("footnotes", "autofootnotes"):
+            if reg not in regs:
+                problems.append(f"document.{reg} is not covered")
+        if problems:
+            rep.violation("C11.R12", key, site, "; ".join(problems) + ": a footnote whose label clashes with a target name stays nameless for docutils' Footnotes transform (reference <problematic>, numbered last)")
+        else:
+            rep.ok("C11.R12", key, site, f"{ci.name}.apply, unconditional, both registries")
+    rep.expect_min("C11.R12", 1, "the restore loop")
+
+
+# ---------------------------------------------------------------------------
+# R13 - the label semantics the documentation promises
+
+
+@rule("C11.R13")
+def r13_documented_label_semantics(corpus: Corpus, rep: Report, tier: str):
+    _use(corpus)
+    rep.rule("C11.R13", "footnote labels are matched the way the user documentation (docs/syntax/typography.md) says")
+    doc = corpus.root / "docs" / "syntax" / "typography.md"
+    key = "footnote labels|documented case-insensitive, matched verbatim"
+    if not doc.is_file():
+        rep.listed("C11.R13", key, "docs/syntax/typography.md", "documentation file not in this tree")
+        return
+    lines = doc.read_text(encoding="utf8").splitlines()
+    hit = next((i for i, l in enumerate(lines) if "label" in l.lower() and "case-insensitive" in l.lower() and any("footnote" in x.lower() for x in lines[max(0, i - 6) : i + 1])), None)
+    ref, dfn = corpus.func(REF_FN), corpus.func(DEF_FN)
+    rev, _ = _scan_ref(ref)
+    dev, _ = _scan_def(dfn)
+    verbatim = bool(rev.nodes("refname_label")) and bool(dev.nodes("names_label"))
+    if hit is None:
+        rep.ok("C11.R13", key, "docs/syntax/typography.md", "the documentation does not promise case-insensitive labels")
+    elif not verbatim:
+        rep.ok("C11.R13", key, f"docs/syntax/typography.md:{hit + 1}", "labels are not used verbatim")
+    else:
+        rep.violation(
+            "C11.R13",
+            key,
+            f"docs/syntax/typography.md:{hit + 1}",
+            "the documentation says footnote labels are case-insensitive, but render_footnote_ref / render_footnote_reference use token.meta['label'] verbatim as refname / name: `see[^Note] and[^note]` with only `[^note]:` defined leaves `[^Note]` unresolved, and `[^a]:` / `[^A]:` are two footnotes",
+        )
+
+
 RULES = [
     r1_priorities_and_registration,
     r2_predicate_and_registries,
@@ -2719,6 +2936,8 @@ RULES = [
     r9_transition_placement,
     r10_first_reference_order,
     r11_unreferenced_reported_once,
+    r12_clashing_names_restored,
+    r13_documented_label_semantics,
 ]
 
 
@@ -2883,7 +3102,7 @@ def mutants(corpus: Corpus):
         # ---- R6
         lab = next((unparse(x.left) for x in ast.walk(dup.test) if isinstance(x, ast.Compare) and isinstance(x.ops[0], ast.In)), "target")
         # revert of fix 65fc250: the document-wide name table decides what a duplicate is
-        add("c11-revert-65fc250-duplicate-test-nameids", "C11.R6", base, dup.test, f"{lab} in self.document.nameids", "against document.nameids", True)
+        add("c11-revert-65fc250-duplicate-test-nameids", "C11.R6", base, dup.test, f"{lab} in self.document.nameids", "against document.nameids")
         add("c11-duplicate-test-ids-table", "C11.R6", base, dup.test, f"{lab} in self.document.ids", "against document.ids")
         # look-up spellings of the same mistakes (class of seed6 out-c11/2)
         add("c11-duplicate-test-id-lookup", "C11.R6", base, dup.test, f"isinstance(self.document.ids.get(nodes.make_id({lab})), nodes.footnote)", "labels compared verbatim")
@@ -3024,6 +3243,32 @@ def mutants(corpus: Corpus):
         out.append(Mutant("c11-collector-option-helper-prefers-env-config", "C11.R7", tm.rel, helper_src, expect="read from the document settings"))
     else:
         out.append(("c11-collector-reads-build-wide-config", "settings.myst_footnote_sort read in CollectFootnotes.apply not found"))
+    # ---- R12: revert of fix 25a867f and variants (clashing footnote names are not restored before docutils' Footnotes)
+    sfa = tm.func("SortFootnotes.apply")
+    rst = find_stmt(sfa, lambda n: isinstance(n, ast.Assign) and "['names']" in unparse(n) and "['dupnames']" in unparse(n.value))
+    rloop = next((a for a in ancestors(rst) if isinstance(a, ast.For)), None) if rst is not None else None
+    if rloop is not None:
+        add("c11-revert-25a867f-clashing-names-not-restored", "C11.R12", tm, rloop, "pass", "restored before docutils' Footnotes", True)
+        reg2 = next((x for x in ast.walk(rloop.iter) if isinstance(x, ast.BinOp) and isinstance(x.op, ast.Add)), None)
+        add("c11-clashing-names-restored-for-auto-only", "C11.R12", tm, reg2, _seg(tm, reg2.right) if reg2 is not None else "", "restored before docutils' Footnotes")
+        guard_if = find_node(sfa, lambda n: isinstance(n, ast.If) and any(isinstance(x, ast.Return) for x in n.body) and bool(_option_reads(sfa, n.test, "myst_footnote_sort")))
+        if guard_if is not None and rloop.end_lineno < guard_if.lineno:
+            src = splice(tm.src, guard_if, _seg(tm, guard_if) + "\n" + " " * rloop.col_offset + _seg(tm, rloop))
+            out.append(Mutant("c11-clashing-names-restored-only-when-sorting", "C11.R12", tm.rel, splice(src, rloop, "pass"), expect="restored before docutils' Footnotes"))
+    else:
+        out.append(("c11-revert-25a867f-clashing-names-not-restored", "restore loop not found in SortFootnotes.apply"))
+    # ---- R9: revert of fix 404c5d4 (promoted title/subtitle not counted)
+    tif2 = find_node(cf, lambda n: isinstance(n, ast.If) and bool(_option_reads(cf, n.test, "myst_footnote_transition")))
+    qcall = next((x for x in ast.walk(tif2.test) if isinstance(x, ast.Call) and dotted(x.func) == "isinstance" and isinstance(x.args[1], (ast.BinOp, ast.Tuple)) and "footnote" in unparse(x.args[1])), None) if tif2 is not None else None
+    add("c11-revert-404c5d4-promoted-title-not-counted", "C11.R9", tm, qcall.args[1] if qcall is not None else None, "nodes.footnote", "not the first element", True)
+    # ---- R3: revert of fix f7f28d7 (definitions nested in a dropped duplicate are lost)
+    dupif2 = find_node(dfn, lambda n: isinstance(n, ast.If) and any(isinstance(x, ast.Return) for x in n.body) and any(isinstance(x, ast.Expr) and "create_warning" in unparse(x) for x in n.body))
+    wl = next((x for x in dupif2.body if isinstance(x, (ast.While, ast.For))), None) if dupif2 is not None else None
+    add("c11-revert-f7f28d7-nested-definitions-dropped-with-duplicate", "C11.R3", base, wl, "pass", "nested in the duplicate", True)
+    # ---- R7: the stored option is not exactly the configuration value (class of recorded seed C11-b1)
+    fin0 = base.functions.get("DocutilsRenderer._render_finalise")
+    st0 = find_stmt(fin0, lambda n: isinstance(n, ast.Assign) and isinstance(n.targets[0], ast.Attribute) and n.targets[0].attr == "myst_footnote_sort") if fin0 is not None else None
+    add("c11-stored-option-prefers-settings-value", "C11.R7", base, st0.value if st0 is not None else None, f"getattr(self.document.settings, \"myst_footnote_sort\", None) or {_seg(base, st0.value) if st0 is not None else ''}", "setting myst_footnote_sort")
     # ---- R7
     fin = base.func("DocutilsRenderer._render_finalise") if "DocutilsRenderer._render_finalise" in base.functions else None
     if fin is not None:
@@ -3168,7 +3413,7 @@ def mutants(corpus: Corpus):
             out.append(("c11-final-transition-lookout-never-advances", "helper with the transition test and a loop not found"))
         # revert of fix f4651d8: nothing looks at a transition that already ends the document
         n = next((x for x in ast.walk(tif.test) if isinstance(x, ast.UnaryOp) and isinstance(x.op, ast.Not) and "transition" in unparse(x.operand).lower() and "children" not in unparse(x)), None)
-        add("c11-revert-f4651d8-transition-after-transition", "C11.R9", tm, n, "True", "not adjacent to an existing transition", True)
+        add("c11-revert-f4651d8-transition-after-transition", "C11.R9", tm, n, "True", "not adjacent to an existing transition")
     return out
 
 
